@@ -40,6 +40,10 @@ def shards(tier):
     return 4 if tier == "quick" else 16
 
 
+# generous per-shard caps: expiry means INCONCLUSIVE, never a verdict (the box is shared and can be 10x slow)
+TIMEOUT = {"quick": 900, "thorough": 3000}
+
+
 # ---- independent reference -----------------------------------------------------------
 KNOWN_TYPES = ("ssh-rsa", "ssh-ed25519", "ecdsa-sha2-nistp256", "ecdsa-sha2-nistp384", "ecdsa-sha2-nistp521")
 
@@ -116,21 +120,22 @@ class K:
         self.obj = PKey.from_type_string(kt, blob)  # harness tool: argument objects for check()/add()
 
 
-def key_pool():
+def key_pool(rng):
+    """Public key blobs derived from the seeded rng (no private keys are needed anywhere)."""
     from cryptography.hazmat.primitives import serialization
-    from cryptography.hazmat.primitives.asymmetric import ec, ed25519, rsa
+    from cryptography.hazmat.primitives.asymmetric import ec, ed25519
 
     pool = []
     for _ in range(3):
-        raw = ed25519.Ed25519PrivateKey.generate().public_key().public_bytes(
+        raw = ed25519.Ed25519PrivateKey.from_private_bytes(rng.randbytes(32)).public_key().public_bytes(
             serialization.Encoding.Raw, serialization.PublicFormat.Raw)
         pool.append(K("ssh-ed25519", s("ssh-ed25519") + s(raw)))
     for _ in range(2):
-        n = rsa.generate_private_key(65537, 1024).public_key().public_numbers()
-        pool.append(K("ssh-rsa", s("ssh-rsa") + mpint(n.e) + mpint(n.n)))
+        n = rng.getrandbits(1024) | (1 << 1023) | 1  # any odd 1024-bit modulus makes a well-formed public blob
+        pool.append(K("ssh-rsa", s("ssh-rsa") + mpint(65537) + mpint(n)))
     for curve, nm, reps in ((ec.SECP256R1(), "nistp256", 2), (ec.SECP384R1(), "nistp384", 1), (ec.SECP521R1(), "nistp521", 1)):
         for _ in range(reps):
-            pt = ec.generate_private_key(curve).public_key().public_bytes(
+            pt = ec.derive_private_key(rng.getrandbits(200) + 2, curve).public_key().public_bytes(
                 serialization.Encoding.X962, serialization.PublicFormat.UncompressedPoint)
             pool.append(K("ecdsa-sha2-" + nm, s("ecdsa-sha2-" + nm) + s(nm) + s(pt)))
     return pool
@@ -160,7 +165,7 @@ def gen_file(rng, pool, hosts=None):
         if r < 0.17:
             # a key type this library does not know (still valid base64)
             lines.append("%s %s %s" % (rng.choice(hosts), rng.choice(["ssh-dss", "ssh-ed448", "sk-ssh-ed25519@openssh.com"]),
-                                       base64.b64encode(s("ssh-dss") + os.urandom(40)).decode()))
+                                       base64.b64encode(s("ssh-dss") + rng.randbytes(40)).decode()))
             continue
         nn = rng.choice([1, 1, 1, 2, 2, 3, 4])
         names = []
@@ -455,23 +460,23 @@ class AbbrCtx:
 def run(ctx):
     ctx = AbbrCtx(ctx)
     rng = ctx.rng
-    pool = key_pool()
+    pool = key_pool(rng)
     for i, k in enumerate(pool):
         ABBR[k.b64] = "<K%d:%s>" % (i, k.kt)
     d = tempfile.mkdtemp(prefix="vf-c41-")
     try:
-        for i in range(ctx.pick(250, 1500)):
+        for i in range(ctx.pick(220, 1200)):
             file_scenario(ctx, rng, pool, d, i)
-        for i in range(ctx.pick(100, 700)):
+        for i in range(ctx.pick(90, 500)):
             history_scenario(ctx, rng, pool, d, i)
     finally:
         shutil.rmtree(d, ignore_errors=True)
-    ctx.require("files_loaded", 800)
+    ctx.require("files_loaded", 600)
     ctx.require("lookups_compared_listed_host", 5000)
     ctx.require("checks_compared_expected_true", 2000)
-    ctx.require("save_reload_cycles", 800)
-    ctx.require("reloads_compared", 1000)
+    ctx.require("save_reload_cycles", 600)
+    ctx.require("reloads_compared", 800)
     ctx.require("files_with_multi_host_lines", 300)
     ctx.require("files_with_hashed_names", 300)
     ctx.require("files_with_conflicting_keys", 150)
-    ctx.require("histories_run", 300)
+    ctx.require("histories_run", 250)
